@@ -95,3 +95,33 @@ class Z3Loop:
             path.ghost[f"loop-env:{self.name}"] = dict(env)
         finally:
             path.in_source = prev
+
+
+def _run_for(self, interp, st, fr):
+    """for <name> in range(lo, hi) with symbolic bounds: the loop variable becomes part of the state;
+    invariant must mention it through env[<name>] (value *before* the iteration runs)."""
+    import ast
+    from .pymodel import SymRange
+    it = interp.eval(st.iter, fr)
+    if isinstance(it, range):
+        it = SymRange(it.start, it.stop) if it.step == 1 else None
+    if not isinstance(it, SymRange) or not isinstance(st.target, ast.Name):
+        raise Unsupported("loop contract on a for-loop that is not `for name in range(lo, hi)`")
+    tgt = st.target.id
+    lo, hi = it.lo, it.hi
+    fr.env[tgt] = lo if isinstance(lo, SInt) else SInt(z3.IntVal(lo)) if isinstance(lo, int) else lo
+    if tgt not in self.vars:
+        self.vars.append(tgt)
+    path = cur()
+    path.ghost[f"loop-range:{self.name}"] = (lo, hi)
+
+    def guard():
+        return interp.truth(ZAtom(zt(fr.env[tgt]) < zt(hi)), "loop guard")
+
+    class _Body:
+        body = list(st.body) + [ast.parse(f"{tgt} = {tgt} + 1").body[0]]
+    self._run(interp, _Body, fr, guard, None)
+    # after the loop Python leaves the last value in the target; nothing in py_ecc reads it
+
+
+Z3Loop.run_for = _run_for
